@@ -211,6 +211,54 @@ def gen_spec(ctx, r):
             "capture": rng.choice(["pipe", "file"])}
 
 
+def pinned_specs(quick):
+    """real runs EVERY check executes first, whatever the seed (no randomness): the classes only a real pdsh run can
+    show -- dsh()'s own "targets span different domains" loop (target lists in which differing domains are
+    separated by a name without a dot, adjacent, absent), a stream that ends long before the other one (stdout
+    closed while stderr keeps arriving, and the reverse), a transport child whose exec fails right after another
+    target's unterminated fragment (stdout to a pipe and to a file)"""
+    def host(o, e, plan):
+        return {"out": hexs(o), "err": hexs(e), "plan": plan}
+
+    def simple(name):
+        n = name.encode()
+        o, e = n + b" out line\n" + n + b" out tail", n + b" err line\n"
+        return host(o, e, ["o %d 0" % len(o), "e %d 0" % len(e)])
+    specs = []
+    for targets, K in ((["a.x", "b", "a.y"], False), (["n1.east.example", "n2", "n1.west.example"], False),
+                       (["a.x", "b", "c.x"], False), (["b", "a.x", "c", "d.y", "e"], False), (["a.x", "b.y"], False),
+                       (["a.x", "b", "c.x"], True), (["plain", "other"], False)):
+        specs.append({"kind": "real-run", "targets": targets, "labels": True, "K": K, "fanout": 32, "write_style": "pinned",
+                      "hosts": {t: simple(t) for t in targets}, "timeout": 0, "capture": "pipe", "pinned": "domains"})
+    # one stream ends long before the other
+    for first, fd in (("o", 1), ("e", 2)):
+        hosts = {}
+        for t in ("h1", "h10"):
+            n = t.encode()
+            o = n + b" out 1\n" + n + b" out 2\n" + n + b" out tail"
+            e = n + b" err 1\n" + n + b" err 2\n" + n + b" err 3\n" + n + b" err tail"
+            early, late = (o, e) if first == "o" else (e, o)
+            lk = "e" if first == "o" else "o"
+            cut = len(late) // 3
+            plan = ["%s %d 0" % (first, len(early)), "C %d 60000" % fd, "%s %d 60000" % (lk, cut),
+                    "%s %d 60000" % (lk, cut), "%s %d 0" % (lk, len(late) - 2 * cut)]
+            hosts[t] = host(o, e, plan)
+        specs.append({"kind": "real-run", "targets": ["h1", "h10"], "labels": True, "K": False, "fanout": 2,
+                      "write_style": "pinned", "hosts": hosts, "timeout": 0, "capture": "pipe",
+                      "pinned": "stream-%s-ends-first" % first})
+    # exec fails for the targets started while the command is gone, right after an unterminated fragment
+    for capture in ("pipe", "file"):
+        targets = ["n1", "n2", "n3", "n4"]
+        hosts = {}
+        for t in targets:
+            n = t.encode()
+            o = n + b" fragment without newline"
+            hosts[t] = host(o, b"", ["o %d 0" % len(o)] + (["U 150000"] if t == "n1" else []))
+        specs.append({"kind": "real-run", "targets": targets, "labels": True, "K": False, "fanout": 1,
+                      "write_style": "pinned", "hosts": hosts, "timeout": 0, "capture": capture, "pinned": "exec-fails"})
+    return specs
+
+
 def exec_spec(ctx, prop, spec, pdsh, writer, d, real):
     """run pdsh on the spec and judge its stdout/stderr; returns (signature or None, what, case)"""
     from vlib.common import unhex
@@ -352,10 +400,14 @@ def run_real(ctx, prop, cov, dist):
     beyond_domain_probe(ctx, pdsh, writer, dist)
     nruns = 24 if ctx.quick() else 220
     real = {"runs": 0, "hosts": 0, "bytes": 0, "tail_split_raced": 0}
-    for r in range(nruns):
-        spec = gen_spec(ctx, r)
-        sig, what, case = exec_spec(ctx, prop, spec, pdsh, writer, os.path.join(ctx.scratch, "real%d" % r), real)
+    pinned = pinned_specs(ctx.quick())
+    real["pinned_runs"] = len(pinned)
+    for r in range(-len(pinned), nruns):
+        spec = pinned[r + len(pinned)] if r < 0 else gen_spec(ctx, r)
+        sig, what, case = exec_spec(ctx, prop, spec, pdsh, writer, os.path.join(ctx.scratch, "real%d" % r if r >= 0 else "realpin%d" % -r), real)
         cov["evaluations"] += 1
+        if spec.get("pinned") == "exec-fails":
+            real["pinned_exec_failures"] = real.get("pinned_exec_failures", 0) + len(case.get("exec_failed", []))
         if sig:
             ctx.offender(sig, what, case)
             if sig in ("crash", "timeout"):
